@@ -191,6 +191,35 @@ pub fn run(cfg: &Cfg) -> i32 {
                 }
             }
         })?;
+        // planted pattern: boxed-in king whose side has at most one movable feature (en-passant
+        // capture of every legality class, seventh-rank pawn, pinned piece): positions in which one
+        // missing or extra move flips the status
+        let tape = proptest::collection::vec(proptest::prelude::any::<u16>(), 120);
+        engine::pbt(ctx, seedf(4), cfg.per_shard(480_000, 6_000_000), &tape, |ctx, tp: &Vec<u16>| {
+            match crate::gen::plant_boxed(&mut crate::gen::Tape::new(tp)) {
+                Some((p, tag)) => {
+                    ctx.class(tag);
+                    let l = p.legal_moves();
+                    ctx.class(match l.len() {
+                        0 => "boxed:no-legal-move",
+                        1 => "boxed:one-legal-move",
+                        2 => "boxed:two-legal-moves",
+                        _ => "boxed:three-or-more-legal-moves",
+                    });
+                    if l.len() == 1 && p.is_ep_capture(l[0]) {
+                        ctx.class("boxed:only-legal-move-is-en-passant");
+                    }
+                    if l.len() <= 4 && !l.is_empty() && l.iter().all(|m| m.promo.is_some()) {
+                        ctx.class("boxed:only-legal-moves-are-promotions");
+                    }
+                    common::visit_position(ctx, &p, &check_step)
+                }
+                None => {
+                    ctx.reject();
+                    Ok(())
+                }
+            }
+        })?;
         let pol = [Policy::Endgame, Policy::Special, Policy::Uniform];
         common::histories(ctx, seedf(1), cfg.per_shard(40_000, 600_000), 10, 120, Some(&pol), &check_step)?;
         Ok(())
@@ -199,7 +228,7 @@ pub fn run(cfg: &Cfg) -> i32 {
     engine::finish(
         report,
         EvidenceSpec {
-            rule: "cases = positions: complete enumeration of K+X v K (X in Q,R,B,N,P; either colour; either side to move), six four-man classes (KQvKR, KRvKR, KBNvK, KPvKP, KQvKP, KNNvK: every 97th placement in quick, all in thorough), curated mates/stalemates and their neighbours, planted positions in which an en-passant capture lands diagonally next to the enemy king amid crowded pieces, and every position of long generated histories (capture-seeking, special-move-seeking and uniform policies, up to 120 plies). at every position the status of every successor reached through make_move_new is judged as well (one ply of look-ahead). evaluations = positions + successors. Non-trivial = terminal position, or in check with exactly one legal reply; distinct = position fingerprints.".into(),
+            rule: "cases = positions: complete enumeration of K+X v K (X in Q,R,B,N,P; either colour; either side to move), six four-man classes (KQvKR, KRvKR, KBNvK, KPvKP, KQvKP, KNNvK: every 97th placement in quick, all in thorough), curated mates/stalemates and their neighbours, planted positions in which an en-passant capture lands diagonally next to the enemy king amid crowded pieces, planted low-mobility positions (king boxed in by enemy attacks plus one movable feature: an en-passant capture that is free / pinned along the capture diagonal / pinned off it / in the rank pattern / the only evasion of the pushed pawn's check, a seventh-rank pawn, a pinned piece, or nothing), and every position of long generated histories (capture-seeking, special-move-seeking and uniform policies, up to 120 plies). at every position the status of every successor reached through make_move_new is judged as well (one ply of look-ahead). evaluations = positions + successors. Non-trivial = terminal position, or in check with exactly one legal reply; distinct = position fingerprints.".into(),
             assumptions: vec!["reference in_check and legal_moves".into()],
             trusted_base: vec!["harness/src/refmodel.rs".into(), "proptest 1.11".into()],
             exhaustive: None,
